@@ -53,39 +53,37 @@ XmlEnc(s) == Cat([i \in 1..Len(s) |-> EncChar(s[i])])
 \* (raw < & are not allowed, nor is > when it ends "]]>"; a literal CR becomes LF).
 Named == << <<E_amp, Amp>>, <<E_quot, Quot>>, <<E_lt, Lt>>, <<E_gt, Gt>>, <<E_apos, 39>> >>
 HexVal(c) == IF c \in 48..57 THEN c - 48 ELSE IF c \in 97..102 THEN c - 87 ELSE IF c \in 65..70 THEN c - 55 ELSE -1
-RECURSIVE NumVal(_, _)
-NumVal(ds, base) == IF Len(ds) = 0 THEN 0 ELSE NumVal(SubSeq(ds, 1, Len(ds) - 1), base) * base + HexVal(ds[Len(ds)])
-FirstSemi(w) == LET P == { i \in 1..(IF Len(w) < 10 THEN Len(w) ELSE 10) : w[i] = 59 } IN
-                IF P = {} THEN 0 ELSE CHOOSE i \in P : \A k \in P : i <= k
-\* w starts with "&#": <<character, length of the reference>>, or <<Bad, 0>>; the character must be a legal XML Char
-CharRef(w) ==
-    LET sp == FirstSemi(w)
-        hex == Len(w) >= 3 /\ w[3] = 120
-        ds == IF sp = 0 THEN <<>> ELSE SubSeq(w, IF hex THEN 4 ELSE 3, sp - 1)
-        okd == /\ Len(ds) > 0 /\ Len(ds) <= 6
-               /\ \A i \in 1..Len(ds) : IF hex THEN HexVal(ds[i]) >= 0 ELSE ds[i] \in 48..57
-        v == NumVal(ds, IF hex THEN 16 ELSE 10) IN
-    IF sp = 0 \/ ~okd \/ ~(v \in {9, 10, 13} \/ v >= 32) THEN <<Bad, 0>> ELSE <<v, sp>>
-RECURSIVE XmlDec(_, _)
-XmlDec(ctx, w) ==
-    IF Len(w) = 0 THEN <<>>
-    ELSE LET c == w[1] IN
-      IF c = Amp THEN
-         IF Len(w) >= 2 /\ w[2] = 35
-         THEN LET r == CharRef(w) IN
-              IF r[1] = Bad THEN <<Bad>> ELSE <<r[1]>> \o XmlDec(ctx, SubSeq(w, r[2] + 1, Len(w)))
-         ELSE LET hits == { i \in 1..Len(Named) : StartsWith(w, Named[i][1]) } IN
-              IF hits = {} THEN <<Bad>>          \* a bare & or an undeclared entity: not well-formed
-              ELSE LET i == CHOOSE i \in hits : TRUE IN
-                   <<Named[i][2]>> \o XmlDec(ctx, SubSeq(w, Len(Named[i][1]) + 1, Len(w)))
-      ELSE IF c = Lt THEN <<Bad>>
-      ELSE IF ctx = "attr" /\ c = Quot THEN <<Bad>>
-      ELSE IF ctx = "attr" /\ c \in {CR, LF, 9} THEN <<32>> \o XmlDec(ctx, Tail(w))
-      ELSE IF ctx = "text" /\ c = CR THEN <<LF>> \o XmlDec(ctx, Tail(w))
-      ELSE <<c>> \o XmlDec(ctx, Tail(w))
+NumVal(ds, base) == Fold(LAMBDA acc, d : acc * base + HexVal(d), 0, ds)
+\* r is a complete reference "&...;": the character it stands for, or Bad.  Only the five predefined entities are
+\* declared; a character reference must denote a legal XML Char.
+Resolve(r) ==
+    LET hits == { i \in 1..Len(Named) : Named[i][1] = r } IN
+    IF hits # {} THEN Named[CHOOSE i \in hits : TRUE][2]
+    ELSE IF Len(r) >= 4 /\ r[2] = 35
+         THEN LET hex == r[3] = 120
+                  ds == SubSeq(r, IF hex THEN 4 ELSE 3, Len(r) - 1)
+                  okd == /\ Len(ds) > 0 /\ Len(ds) <= 6
+                         /\ \A i \in 1..Len(ds) : IF hex THEN HexVal(ds[i]) >= 0 ELSE ds[i] \in 48..57
+                  v == NumVal(ds, IF hex THEN 16 ELSE 10) IN
+              IF okd /\ (v \in {9, 10, 13} \/ v >= 32) THEN v ELSE Bad
+         ELSE Bad
+\* the parser's reading of a value: one pass, collecting a pending reference in `ref'
+DecStep(ctx, st, c) ==
+    IF st.ref # <<>> THEN
+         IF c = 59 THEN [o |-> Append(st.o, Resolve(Append(st.ref, c))), ref |-> <<>>]
+         ELSE IF Len(st.ref) >= 9 \/ c \in {Amp, Lt} THEN [o |-> Append(st.o, Bad), ref |-> <<>>]   \* a bare &
+         ELSE [st EXCEPT !.ref = Append(@, c)]
+    ELSE IF c = Amp THEN [st EXCEPT !.ref = <<Amp>>]
+    ELSE IF c = Lt THEN [st EXCEPT !.o = Append(@, Bad)]
+    ELSE IF ctx = "attr" /\ c = Quot THEN [st EXCEPT !.o = Append(@, Bad)]
+    ELSE IF ctx = "attr" /\ c \in {CR, LF, 9} THEN [st EXCEPT !.o = Append(@, 32)]
+    ELSE IF ctx = "text" /\ c = CR THEN [st EXCEPT !.o = Append(@, LF)]
+    ELSE [st EXCEPT !.o = Append(@, c)]
+XmlDec(ctx, w) == LET r == Fold(LAMBDA st, c : DecStep(ctx, st, c), [o |-> <<>>, ref |-> <<>>], w) IN
+                  IF r.ref # <<>> THEN Append(r.o, Bad) ELSE r.o
 \* "]]>" must not appear literally in character data
 NoCdataEnd(w) == ~HasSub(w, <<93, 93, 62>>)
-XmlSafe(ctx, w) == Bad \notin Range(XmlDec(ctx, w)) /\ (ctx = "text" => NoCdataEnd(w))
+XmlSafe(ctx, w) == Bad \notin BytesOf(XmlDec(ctx, w)) /\ (ctx = "text" => NoCdataEnd(w))
 
 \* the encoding theorem the writer relies on (checked by TLC over all strings up to a length)
 EncodeCorrect(A, n) == \A s \in StrUpTo(A, n) : \A ctx \in {"attr", "text"} : XmlSafe(ctx, XmlEnc(s)) /\ XmlDec(ctx, XmlEnc(s)) = s
@@ -204,10 +202,13 @@ OneFilePerGroup == Len(files) = Len(done)
 Failed(t) == t.fails # <<>>
 NFailed(ts) == Cardinality({ i \in 1..Len(ts) : Failed(ts[i]) })
 
-SuiteCountsTrue == \A i \in 1..Len(files) :
+\* (the ...From(k) forms look at the documents from position k on; the property is the form From(1))
+Lo(k) == IF k < 1 THEN 1 ELSE k
+SuiteCountsTrueFrom(k) == \A i \in Lo(k)..Len(files) :
     /\ files[i].suite.name = done[i].grp
     /\ files[i].suite.tests = Len(done[i].tests)
     /\ files[i].suite.failures = NFailed(done[i].tests)
+SuiteCountsTrue == SuiteCountsTrueFrom(1)
 
 \* one test case element per test, in run order, with name, file and line; skipped exactly for ignored tests,
 \* a failure element exactly for failed tests, carrying the message of one of the test's failures
@@ -216,18 +217,22 @@ CaseOK(c, t) ==
     /\ c.skipped <=> t.ign
     /\ c.failed <=> Failed(t)
     /\ c.failed => \E j \in 1..Len(t.fails) : EndsWith(c.message, t.fails[j].msg)
-CasesFaithful == \A i \in 1..Len(files) :
+CasesFaithfulFrom(k) == \A i \in Lo(k)..Len(files) :
     /\ Len(files[i].cases) = Len(done[i].tests)
-    /\ \A k \in 1..Len(files[i].cases) : CaseOK(files[i].cases[k], done[i].tests[k])
+    /\ \A n \in 1..Len(files[i].cases) : CaseOK(files[i].cases[n], done[i].tests[n])
+CasesFaithful == CasesFaithfulFrom(1)
 
 SysoutOK(text, d) == text = d.printedGroup \/ text = d.printedAll
-OutputFaithful == \A i \in 1..Len(files) : SysoutOK(files[i].sysout, done[i])
+OutputFaithfulFrom(k) == \A i \in Lo(k)..Len(files) : SysoutOK(files[i].sysout, done[i])
+OutputFaithful == OutputFaithfulFrom(1)
 
 \* every string is written so that a conforming parser accepts it and reads back the original
-WellFormedRoundTrip == \A i \in 1..Len(files) : \A k \in 1..Len(files[i].wire) :
-    LET e == files[i].wire[k] IN XmlSafe(e.ctx, e.w) /\ XmlDec(e.ctx, e.w) = e.orig
+WellFormedRoundTripFrom(k) == \A i \in Lo(k)..Len(files) : \A n \in 1..Len(files[i].wire) :
+    LET e == files[i].wire[n] IN XmlSafe(e.ctx, e.w) /\ XmlDec(e.ctx, e.w) = e.orig
+WellFormedRoundTrip == WellFormedRoundTripFrom(1)
 
-FileNamesOK == \A i \in 1..Len(files) : FileNameOK(files[i].fname, done[i].pkg, done[i].grp)
+FileNamesOKFrom(k) == \A i \in Lo(k)..Len(files) : FileNameOK(files[i].fname, done[i].pkg, done[i].grp)
+FileNamesOK == FileNamesOKFrom(1)
 
 \* the reporter's bookkeeping for the open group agrees with what happened
 BookkeepingOK ==
